@@ -3,14 +3,7 @@ import json, os
 from .common import VERIF
 
 GUARD = "SOUFFLE_VERIF"
-# pid -> (category, technique, text, note, design_ref)
-CHECKS = {}
-def reg(pid, category, technique, text, note, ref):
-    CHECKS[pid] = dict(category=category, technique=technique, text=text, note=note, ref=ref)
-
-NOT_BUILT = {}
-
-from . import manifest_table  # fills CHECKS / NOT_BUILT
+from .manifest_table import CHECKS, NOT_BUILT
 
 def main():
     props = [json.loads(l) for l in open(os.path.join(VERIF, "properties.jsonl"))]
